@@ -207,6 +207,21 @@ def make_judges(ctx):
         ctx.judged(('reset', flagset(pre.status)), bool(flagset(pre.status)), None)
         ctx.floor_hit(('reset', bool(flagset(pre.status))))
 
+    def fresh_callbacks_judge(ev):
+        """callbacks are registered per object: an object built without callbacks= (and not from a template) starts with none, and nothing it does
+        while being built is reported to a callback registered on some other object"""
+        if ev.op != '__init__' or ev.kind != 'method' or ev.exc is not None or not ev.post or ev.post[0] is None:
+            return
+        d = init_arguments(ev)
+        if d.get('like') is not None or 'callbacks' in d or getattr(Fxp, 'template', None) is not None:
+            return
+        mine = [c for c, oid in ev.callbacks if oid == id(ev.receiver)]
+        if ev.post[0].n_callbacks or mine:
+            ctx.violation('foreign_callbacks', 'an object built without callbacks= has %d callbacks registered and reported %s to callbacks registered elsewhere' % (
+                ev.post[0].n_callbacks, sorted(mine)), ev, key='callbacks.shared')
+        ctx.judged(('fresh-callbacks',), False, None)
+        ctx.floor_hit(('fresh-callbacks',))
+
     def sticky_judge(ev):
         for p in U.u3_problems(ev):
             ctx.violation('flag_cleared', p[1], ev)
@@ -267,7 +282,7 @@ def make_judges(ctx):
         ctx.judged(('propagation', route, carried, tuple(bool(s.status.get('inaccuracy')) for s in srcs)), carried, None)
         if carried:
             ctx.floor_hit(('propagation', route.split(':')[0]))
-    return [write_judge, resize_judge, reset_judge, sticky_judge, propagation_judge, RJ.make_judge(ctx, ctx.mon.Fxp, 'flags')]
+    return [write_judge, resize_judge, reset_judge, sticky_judge, fresh_callbacks_judge, propagation_judge, RJ.make_judge(ctx, ctx.mon.Fxp, 'flags')]
 
 
 def floors(tier):
@@ -275,7 +290,7 @@ def floors(tier):
     cells += [('callbacks', k) for k in ('write', 'indexed', 'resize')] + [('callbacks-changed',)]
     cells += [('reset', True), ('propagation', 'binary'), ('propagation', 'function'), ('propagation', 'numpy'), ('propagation', 'method'),
               ('propagation', 'Fxp(x)'), ('propagation', 'Fxp(x, like=)'), ('huge-integer-write',), ('propagation-workload', 'configured-output'),
-              ('reduction-flags', 'beyond-int64'), ('reduction-flags', 'moderate'), ('complex-write-workload',), ('complex-write-judged',)]
+              ('reduction-flags', 'beyond-int64'), ('reduction-flags', 'moderate'), ('complex-write-workload',), ('complex-write-judged',), ('fresh-callbacks',), ('reduction-inaccuracy-kept',)]
     return cells
 
 
